@@ -20,6 +20,9 @@ theorem partition_of_union (s c : Bool) :
   cases s <;> cases c <;> decide
 
 theorem union_empty_clip (fr : Nat) (wS : Int) : specIn 2 fr wS 0 = filled fr wS := by
-  sorry
+  have h0 : filled fr 0 = false := by
+    unfold filled
+    split <;> simp
+  simp [specIn, combine, h0]
 
 end Proofs.C19
